@@ -307,7 +307,7 @@ MarkLost(jb) ==
     [j \in Jobs |->
         IF jb[j].incache /\ ~jb[j].ready /\ jb[j].lost # None
            /\ now - jb[j].lost[1] > Grace
-          THEN SetJob(jb[j], "lost", jb[j].lost[2])
+          THEN [SetJob(jb[j], "lost", jb[j].lost[2]) EXCEPT !.lost = None]   \* reported once (F25 repair)
           ELSE jb[j]]
 
 (* phase 2: reap.  Indices of exited workers; the code walks the list backwards *)
@@ -529,6 +529,11 @@ OwnOutcome == [][\A j \in Jobs : (~job[j].ready /\ job'[j].ready) =>
        /\ job'[j].oarg = job[j].hard
     \/ /\ job'[j].out = "terminated" /\ act'.name = "Maintain"
        /\ job[j].owner # 0 /\ \E k \in 1..Len(sigs) : sigs[k] = <<job[j].owner, "TERM">>]_vars
+(* the job of a worker that was revoked with terminate_job() and is reaped while still owning it *)
+(* ends as Terminated -- it is not put on the lost-worker path (and nobody else's job is)         *)
+RevokedIsTerminated == [][\A j \in Jobs : (job[j].lost = None /\ job'[j].lost # None) =>
+                            LET o == job[j].owner IN
+                              ~(o \in PoolPids(pool) /\ pool[IdxOf(pool, o)].jterm)]_vars
 (* late / duplicate messages for a resolved job change nothing about it *)
 LateIgnored == [][\A j \in Jobs : ((job[j].ready /\ ~job[j].incache /\ act'.name \in {"RH_Ready", "RH_Ack"})
                         => (job'[j] = [job[j] EXCEPT !.late = job'[j].late]))]_vars
@@ -544,6 +549,9 @@ LostOnlyIfReal == \A j \in Jobs : job[j].lost # None =>
 (* the mark is set once, at detection, with the owner's real exit status *)
 LostMarkRight == [][\A j \in Jobs : (job'[j].lost # job[j].lost) =>
                       LET o == job[j].owner IN
+                       IF job'[j].lost = None       \* the mark is dropped exactly when the loss is reported
+                         THEN act'.name = "Maintain" /\ now - job[j].lost[1] > Grace
+                         ELSE
                         /\ job[j].lost = None
                         /\ o # 0 /\ w[o].ex # None
                         /\ job'[j].lost[1] = now
